@@ -608,16 +608,16 @@ Proof.
   intros HL. unfold do_call. destruct (find_task (tasks s) t) as [x|] eqn:Ef; auto.
   assert (Hfree : forall c0 p0, find_task (tasks s) t = Some (c0, p0) -> locked_pc p0 = false /\ waitlock p0 = false)
     by (intros; congruence).
-  destruct c.
-  - destruct (nl_started s); [eapply LkS_finish_free; eauto; apply slk_refl|].
+  destruct c; cbn [nl_started nl_closed cont_closed running_process send_command set_trace].
+  - destruct (nl_started s); [eapply LkS_finish_free; eauto; repeat split|].
     apply LkS_acquire; auto; try (left; exact Ef); try (eapply LkS_slk; [|exact HL]; repeat split).
   - apply LkS_acquire; auto.
   - apply LkS_acquire; auto.
-  - destruct (nl_closed s); [eapply LkS_finish_free; eauto; apply slk_refl|]. simpl.
+  - destruct (nl_closed s); [eapply LkS_finish_free; eauto; repeat split|]. simpl.
     destruct (nl_started s); apply LkS_acquire; auto; try (left; exact Ef); try (eapply LkS_slk; [|exact HL]; repeat split).
-  - destruct (cont_closed s); [eapply LkS_finish_free; eauto; apply slk_refl|].
+  - destruct (cont_closed s); [eapply LkS_finish_free; eauto; repeat split|].
     apply LkS_acquire; auto; try (left; exact Ef); try (eapply LkS_slk; [|exact HL]; repeat split).
-  - destruct (cont_closed s); [eapply LkS_finish_free; eauto; apply slk_refl|].
+  - destruct (cont_closed s); [eapply LkS_finish_free; eauto; repeat split|].
     apply LkS_acquire; auto; try (left; exact Ef); try (eapply LkS_slk; [|exact HL]; repeat split).
   - apply LkS_acquire; auto.
   - destruct (running_process s).
